@@ -2140,3 +2140,342 @@ Proof.
       * change (rstat (wr_c (wr_c (retrier_drop s1 t l) c2) c3) t) with (rstat (retrier_drop s1 t l) t). rewrite retrier_drop_rstat. exact Hrun.
       * apply Hpend_drop. reflexivity.
 Qed.
+
+(* ---- nodupN / reorder ---- *)
+Lemma In_nodupN x l : In x (nodupN l) <-> In x l.
+Proof.
+  induction l as [|y l IH]; cbn; [tauto|]. rewrite filter_In, IH, negb_true_iff, N.eqb_neq.
+  destruct (N.eq_dec y x) as [->|Hn]; [tauto|]. split; [tauto|]. intros [H|H]; [contradiction|]. right. split; [exact H|congruence].
+Qed.
+Lemma NoDup_nodupN l : NoDup (nodupN l).
+Proof.
+  induction l as [|y l IH]; cbn; [constructor|]. constructor.
+  - rewrite filter_In, negb_true_iff, N.eqb_neq. tauto.
+  - apply NoDup_filter, IH.
+Qed.
+Lemma In_reorder hint p x : In x (reorder hint p) <-> In x p.
+Proof.
+  unfold reorder. rewrite in_app_iff, !filter_In, In_nodupN, memN_In, negb_true_iff.
+  destruct (memN x hint) eqn:E.
+  - apply memN_In in E. split; [tauto|]. intros H. left. tauto.
+  - split; [tauto|]. intros H. right. tauto.
+Qed.
+Lemma NoDup_reorder hint p : NoDup p -> NoDup (reorder hint p).
+Proof.
+  intros H. unfold reorder. apply NoDup_app_iff. split; [apply NoDup_filter, NoDup_nodupN|]. split; [apply NoDup_filter, H|].
+  intros x Hx Hy. apply filter_In in Hx. apply filter_In in Hy. destruct Hx as [Hx _]. destruct Hy as [_ Hy].
+  apply (proj1 (In_nodupN x hint)) in Hx. apply (proj2 (memN_In x hint)) in Hx. rewrite Hx in Hy. discriminate.
+Qed.
+
+Lemma run_for_not_ok t : forall locs s adds s1 adds1 r, run_for s t locs adds = (s1, adds1, Some r) -> r <> RunOk /\ r <> RunFuel.
+Proof.
+  induction locs as [|l0 l IHl]; intros s adds s1 adds1 r E1; cbn [run_for] in E1; [discriminate|].
+  destruct (poisoned s); [inversion E1; split; discriminate|]. destruct (dbm_load_appointment (c_db (f_c s)) l0); [|inversion E1; split; discriminate].
+  destruct (next_reply adds) as [rp adds']. destruct rp; try (inversion E1; split; discriminate).
+  - destruct (wt_add_appointment_receipt _ _ _ _ _ _ _) as [c2 r2]. destruct (lift_site r2); [inversion E1; split; discriminate|].
+    destruct (wt_remove_pending_appointment c2 t l0) as [c3 r3]. destruct (lift_site r3); [inversion E1; split; discriminate|]. eapply IHl, E1.
+  - destruct (wt_add_invalid_appointment _ _ _ _ _) as [c2 r2]. destruct (lift_site r2); [inversion E1; split; discriminate|].
+    destruct (wt_remove_pending_appointment c2 t l0) as [c3 r3]. destruct (lift_site r3); [inversion E1; split; discriminate|]. eapply IHl, E1.
+Qed.
+
+Lemma FInv_run_while t hint : forall fuel s adds s' res,
+  RunPre s t -> run_while fuel s t hint adds = (s', res) ->
+  FInv s' /\ (match res with RunAbort _ => False | _ => True end -> poisoned s' = false /\ (forall k, knownc (f_c s') k <-> knownc (f_c s) k)) /\
+  (res = RunOk -> retrier_pending s' t = []).
+Proof.
+  induction fuel as [|f IH]; intros s adds s' res Hpre E; cbn [run_while] in E.
+  { inversion E. subst. destruct Hpre as [HF [Hp _]]. split; [exact HF|]. split; [intros _; split; [exact Hp|tauto]|discriminate]. }
+  destruct (retrier_pending s t) as [|x p] eqn:Ep.
+  { inversion E. subst. destruct Hpre as [HF [Hp _]]. split; [exact HF|]. split; [intros _; split; [exact Hp|tauto]|intros _; exact Ep]. }
+  destruct (run_for s t (reorder hint (x :: p)) adds) as [[s1 adds1] r1] eqn:E1.
+  pose proof Hpre as [HF [Hp [Hk Hrun]]].
+  assert (Hnd : NoDup (x :: p)).
+  { destruct HF as [_ [_ [HV _]]]. destruct (HV Hp) as [_ [_ [_ [V4 _]]]]. unfold retrier_pending in Ep.
+    destruct (aget (f_mgr s) t) as [r|] eqn:Er; [|discriminate]. rewrite <- Ep. eapply V4, Er. }
+  destruct (FInv_run_for t _ s adds s1 adds1 r1 Hpre (NoDup_reorder hint _ Hnd)) as [A [B [C [D F]]]]; [|exact E1|].
+  { intros l Hl. rewrite Ep. apply In_reorder in Hl. exact Hl. }
+  destruct r1 as [r|].
+  - destruct (run_for_not_ok t _ _ _ _ _ _ E1) as [Hnok _]. inversion E. subst. split; [exact A|]. split; [|intros ->; exfalso; apply Hnok; reflexivity].
+    intros Hna. apply B. destruct res; auto.
+  - destruct (B I) as [Hp1 Hk1].
+    assert (Hpre1 : RunPre s1 t).
+    { split; [exact A|]. split; [exact Hp1|]. split; [apply Hk1, Hk|].
+      pose proof (run_for_same t (reorder hint (x :: p)) s adds) as [_ Hs]. rewrite E1 in Hs. cbn [fst] in Hs. rewrite Hs. exact Hrun. }
+    destruct (IH s1 adds1 s' res Hpre1 E) as [A' [B' C']]. split; [exact A'|]. split; [|exact C'].
+    intros Hna. destruct (B' Hna) as [X Y]. split; [exact X|]. intros k. rewrite Y. apply Hk1.
+Qed.
+
+(* a renewal of the subscription of a KNOWN tower *)
+Lemma FInv_renew s t addr slots start expiry sg c' r :
+  FInv s -> poisoned s = false -> knownc (f_c s) t ->
+  wt_add_update_tower (f_c s) t addr slots start expiry sg = (c', r) ->
+  FInv (set_c s c') /\ (is_abort r = false -> c_poisoned c' = false /\ (forall k, knownc c' k <-> knownc (f_c s) k)).
+Proof.
+  intros HF Hp Hk E. pose proof HF as [HI [HD [HV HT]]]. destruct (HV Hp) as [V1 [V2 [V3 [V4 V5]]]].
+  destruct (prim_add_update_tower _ _ _ _ _ _ _ _ _ HI Hp E) as [HI' [Hret [Hh Heff]]].
+  assert (Hkn : forall k, knownc c' k <-> knownc (f_c s) k).
+  { destruct Heff as [[_ Hst]|[_ [_ [Hst _]]]]; [apply (knownc_stat _ _ Hst)|].
+    intros k. unfold knownc, amem in *. specialize (Hst k). unfold stat in Hst. destruct (N.eqb k t) eqn:Ek.
+    - apply N.eqb_eq in Ek. subst k. destruct (aget (c_towers c') t), (aget (c_towers (f_c s)) t); cbn in Hst; try discriminate; tauto.
+    - destruct (aget (c_towers c') k), (aget (c_towers (f_c s)) k); cbn in Hst; try discriminate; tauto. }
+  split.
+  - apply FInv_client; [exact HF|exact HI'| |].
+    + destruct Heff as [[Ed _]|[_ [_ [_ [T4 [HTr Hfr]]]]]]; [rewrite Ed; exact HD|].
+      apply (DurInv_same_tables (c_db (f_c s))); try (apply Hfr; discriminate); [apply HI'| |exact HD].
+      intros k Hk'. apply HTr. left. exact Hk'.
+    + intros _. split; [exact Hp|]. destruct Heff as [[Ed Hst]|[_ [_ [Hst [T4 [HTr Hfr]]]]]].
+      * split; [intros k Hk'; rewrite Ed; apply V1; rewrite <- Hst; exact Hk'|]. split; [|exact Hret].
+        intros k Hk' l Hl. rewrite Ed. apply V2; [apply Hkn, Hk'|exact Hl].
+      * split.
+        { intros k Hk'. rewrite (Mrow_ext _ _ k (Hfr T_misbehaving_proofs ltac:(discriminate) ltac:(discriminate))). apply V1.
+          rewrite Hst in Hk'. destruct (N.eqb k t) eqn:Ek; [|exact Hk']. apply N.eqb_eq in Ek. subst k.
+          destruct (stat (f_c s) t) eqn:Es; [exact Hk'|]. unfold knownc, amem in Hk. unfold stat in Es. destruct (aget (c_towers (f_c s)) t); discriminate. }
+        split; [|exact Hret].
+        intros k Hk' l Hl. rewrite (Prow_ext _ _ k l (Hfr T_pending_appointments ltac:(discriminate) ltac:(discriminate))).
+        apply V2; [apply Hkn, Hk'|exact Hl].
+  - intros Ha. unfold healthy_or_abort in Hh. rewrite Ha in Hh. split; [exact Hh|exact Hkn].
+Qed.
+
+Lemma FInv_run_attempt s t a s' res :
+  FInv s -> rstat s t = Some RRunning -> run_attempt s t a = (s', res) ->
+  FInv s' /\ (match res with RunAbort _ => False | _ => True end -> poisoned s' = false) /\
+  (res = RunOk -> retrier_pending s' t = [] /\ knownc (f_c s') t).
+Proof.
+  intros HF Hrun E. unfold run_attempt in E. destruct (poisoned s) eqn:Hp.
+  { inversion E. subst. split; [exact HF|]. split; [intros []|discriminate]. }
+  destruct (aget (c_towers (f_c s)) t) as [su|] eqn:Et.
+  2:{ inversion E. subst. split; [exact HF|]. split; [intros _; exact Hp|discriminate]. }
+  assert (Hk : knownc (f_c s) t) by (unfold knownc, amem; rewrite Et; reflexivity).
+  assert (Hgo : forall s0, FInv s0 -> poisoned s0 = false -> knownc (f_c s0) t -> rstat s0 t = Some RRunning ->
+            run_while (run_fuel s0 t) s0 t (at_order a) (at_adds a) = (s', res) ->
+            FInv s' /\ (match res with RunAbort _ => False | _ => True end -> poisoned s' = false) /\
+            (res = RunOk -> retrier_pending s' t = [] /\ knownc (f_c s') t)).
+  { intros s0 H0 Hp0 Hk0 Hr0 E0.
+    destruct (FInv_run_while t (at_order a) _ s0 (at_adds a) s' res (conj H0 (conj Hp0 (conj Hk0 Hr0))) E0) as [A [B C]].
+    split; [exact A|]. split; [intros Hna; apply B, Hna|]. intros ->. split; [apply C; reflexivity|]. apply (proj2 (B I)). exact Hk0. }
+  destruct (is_subscription_error (su_status su)); [|apply (Hgo s HF Hp Hk Hrun E)].
+  set (s1 := log_req s (ReqRegister t)) in *.
+  assert (HF1 : FInv s1) by (apply (FInv_core s); auto).
+  destruct (at_reg a) as [slots start expiry sig_ok| | | |];
+    try (inversion E; subst; split; [exact HF1|]; split; [intros _; exact Hp|discriminate]).
+  destruct (negb sig_ok); [inversion E; subst; split; [exact HF1|]; split; [intros _; exact Hp|discriminate]|].
+  destruct (wt_add_update_tower (f_c s1) t (su_addr su) slots start expiry REG_SIG) as [c' r] eqn:Eu.
+  destruct (FInv_renew s1 t _ _ _ _ _ c' r HF1 Hp Hk Eu) as [HF2 Hok].
+  destruct r; try (inversion E; subst; split; [exact HF2|]; split; [intros _; apply Hok; reflexivity|discriminate]).
+  - destruct (Hok eq_refl) as [Hp2 Hkn2].
+    apply (Hgo (wr_c s1 c')); [exact HF2|exact Hp2|apply Hkn2, Hk|exact Hrun|exact E].
+  - inversion E. subst. split; [exact HF2|]. split; [intros []|discriminate].
+Qed.
+
+(* ---- the arms after retry_notify ---- *)
+Definition CInv (s : fstate) : Prop :=
+  Inv (f_c s) /\ DurInv (c_db (f_c s)) (f_due s) /\ (poisoned s = false -> VolInv s).
+Lemma FInv_split s : FInv s <-> CInv s /\ TaskInv s.
+Proof. unfold FInv, CInv. tauto. Qed.
+Definition notasks (s : fstate) : fstate := set_tasks s [].
+Lemma TaskInv_notasks s : TaskInv (notasks s).
+Proof. split; [constructor|intros t []]. Qed.
+Lemma CInv_FInv_notasks s : CInv s <-> FInv (notasks s).
+Proof. rewrite FInv_split. split; [intros H; split; [exact H|apply TaskInv_notasks]|intros [H _]; exact H]. Qed.
+
+(* flagging a tower (both paths) *)
+Lemma FInv_flag s t l c2 r :
+  FInv s -> poisoned s = false ->
+  wt_flag_misbehaving_tower (f_c s) t l START_BLOCK USER_SIG SIG_OTHER (other_id t) = (c2, r) ->
+  FInv (set_c s c2).
+Proof.
+  intros HF Hp E. pose proof HF as [HI [HD [HV HT]]]. destruct (HV Hp) as [V1 [V2 [V3 [V4 V5]]]].
+  destruct (prim_flag _ _ _ _ _ _ _ _ _ HI Hp E) as [HI' [Hret [Hh Heff]]].
+  destruct Heff as [[Ed [Hst Hne]]|[-> [Hp2 [Hk [Hst [T5 [T6 Hfr]]]]]]].
+  - apply FInv_client_grow; [exact HF|exact Hp|exact HI'|rewrite Ed; exact HD|exact Hst|exact Hret|intros k x H; rewrite Ed; exact H|intros k H; rewrite Ed; exact H].
+  - assert (ER : forall k x, Rrow (c_db c2) k x <-> Rrow (c_db (f_c s)) k x \/ (k = t /\ x = l)) by (intros; apply (Rrow_app _ _ _ _ _ _ _ k x T5)).
+    assert (EPr : forall k x, Prow (c_db c2) k x <-> Prow (c_db (f_c s)) k x) by (intros; apply Prow_ext, Hfr; discriminate).
+    assert (EI : forall k x, Irow (c_db c2) k x <-> Irow (c_db (f_c s)) k x) by (intros; apply Irow_ext, Hfr; discriminate).
+    assert (EM : forall k, Mrow (c_db c2) k <-> Mrow (c_db (f_c s)) k \/ k = t) by (intros; apply (Mrow_app _ _ _ _ _ k T6)).
+    assert (ET : forall k, Trow (c_db c2) k <-> Trow (c_db (f_c s)) k) by (intros; apply Trow_ext, Hfr; discriminate).
+    assert (HD2 : DurInv (c_db c2) (f_due s)).
+    { destruct HD as [_ [U E0]]. split; [apply HI'|]. split.
+      - intros k x Hm. assert (Hkt : k <> t) by (intros ->; apply Hm, EM; tauto).
+        assert (Hm0 : ~ Mrow (c_db (f_c s)) k) by (intros H; apply Hm, EM; tauto).
+        unfold excl3. rewrite !ER, !EPr, !EI. destruct (U k x Hm0) as [A [B C]]. tauto.
+      - intros k x Hin. destruct (E0 k x Hin) as [A B]. split; [apply ET, A|]. intros Hm.
+        assert (Hm0 : ~ Mrow (c_db (f_c s)) k) by (intros H; apply Hm, EM; tauto). rewrite ER, EPr, EI. specialize (B Hm0). tauto. }
+    apply FInv_client; [exact HF|exact HI'|exact HD2|]. intros _. split; [exact Hp|]. split; [|split; [|exact Hret]].
+    + intros k Hk'. apply EM. rewrite Hst in Hk'. destruct (N.eqb k t) eqn:Ekt; [right; apply N.eqb_eq; exact Ekt|left; apply V1, Hk'].
+    + intros k Hk' x Hx. apply EPr. apply V2; [|exact Hx]. unfold knownc, amem in *. specialize (Hst k). unfold stat in Hst.
+      destruct (N.eqb k t) eqn:Ekt; [apply N.eqb_eq in Ekt; subst k; exact Hk|].
+      destruct (aget (c_towers c2) k), (aget (c_towers (f_c s)) k); cbn in Hst; try discriminate; auto.
+Qed.
+
+(* changing the status of t's retrier to a status that is not Running, possibly clearing its set *)
+Lemma CInv_retrier_update s t (st : rstatus) (clear : bool) r :
+  CInv s -> aget (f_mgr s) t = Some r -> st <> RRunning ->
+  CInv (put_retrier s t {| r_status := st; r_pending := if clear then [] else r_pending r |}).
+Proof.
+  intros HC Hr Hst. apply CInv_FInv_notasks in HC. apply CInv_FInv_notasks.
+  change (notasks (put_retrier s t {| r_status := st; r_pending := if clear then [] else r_pending r |}))
+    with (put_retrier (notasks s) t {| r_status := st; r_pending := if clear then [] else r_pending r |}).
+  pose proof HC as [HI [HD [HV HT]]].
+  apply FInv_put; [exact HC| | | |].
+  - intros Hp Hk l Hl. cbn [r_pending] in Hl. destruct clear; [contradiction|]. destruct (HV Hp) as [_ [V2 _]]. apply V2; [exact Hk|].
+    rewrite tracked_eq. apply in_or_app. left. unfold retrier_pending. change (f_mgr (notasks s)) with (f_mgr s). rewrite Hr. exact Hl.
+  - intros _ H. cbn in H. congruence.
+  - intros Hp. cbn [r_pending]. destruct clear; [constructor|]. destruct (HV Hp) as [_ [_ [_ [V4 _]]]]. eapply (V4 t r). exact Hr.
+  - split; [constructor|intros k []].
+Qed.
+
+Lemma CInv_retriers_change s m :
+  CInv s -> (forall k, rstat s k = Some RRunning -> aget m k = Some RRunning) ->
+  CInv (set_c s (with_retriers (f_c s) m)).
+Proof.
+  intros [HI [HD HV]] H. split; [exact HI|]. split; [exact HD|]. intros Hp. destruct (HV Hp) as [V1 [V2 [V3 [V4 V5]]]].
+  split; [exact V1|]. split; [exact V2|]. split; [exact V3|]. split; [exact V4|]. intros k Hk. apply H, Hk.
+Qed.
+
+Lemma CInv_set_status s t st : CInv s -> poisoned s = false -> st <> Misbehaving -> CInv (set_c s (wt_set_tower_status (f_c s) t st)).
+Proof.
+  intros HC Hp Hst. apply CInv_FInv_notasks in HC. apply CInv_FInv_notasks.
+  exact (FInv_set_status (notasks s) t st HC Hp Hst).
+Qed.
+
+Lemma poisoned_set_status c t st : c_poisoned (wt_set_tower_status c t st) = c_poisoned c.
+Proof. unfold wt_set_tower_status. destruct (aget (c_towers c) t); reflexivity. Qed.
+Lemma retriers_set_status c t st : c_retriers (wt_set_tower_status c t st) = c_retriers c.
+Proof. unfold wt_set_tower_status. destruct (aget (c_towers c) t); reflexivity. Qed.
+
+Lemma retrier_set_status_eq s t st r : aget (f_mgr s) t = Some r ->
+  retrier_set_status s t st = put_retrier s t {| r_status := st; r_pending := r_pending r |}.
+Proof. intros H. unfold retrier_set_status. rewrite H. reflexivity. Qed.
+Lemma retrier_clear_eq s t r : aget (f_mgr s) t = Some r ->
+  retrier_clear s t = put_retrier s t {| r_status := r_status r; r_pending := [] |}.
+Proof. intros H. unfold retrier_clear. rewrite H. reflexivity. Qed.
+
+Lemma CInv_end_task s t : CInv s -> CInv (end_task s t).
+Proof. intros H. exact H. Qed.
+
+Lemma CInv_task_step s t r more :
+  CInv s -> rstat s t = Some RRunning -> (match r with RunAbort _ => False | _ => True end -> poisoned s = false) ->
+  CInv (fst (task_step s t r more)).
+Proof.
+  intros HC Hrun Hnp. unfold rstat in Hrun. destruct (aget (f_mgr s) t) as [r0|] eqn:Er; [|discriminate]. cbn in Hrun. inversion Hrun as [Hs0].
+  unfold task_step. destruct r as [|e|site|].
+  - (* Ok arm *)
+    cbn [fst]. apply CInv_end_task. specialize (Hnp I).
+    match goal with |- CInv (retrier_set_status ?x t RStopped) => rewrite (retrier_set_status_eq x t RStopped r0 Er) end.
+    pose proof (CInv_retrier_update s t RStopped false r0 HC Er ltac:(discriminate)) as H1. cbn [r_pending] in H1.
+    set (sa := put_retrier s t {| r_status := RStopped; r_pending := r_pending r0 |}) in *.
+    pose proof (CInv_set_status sa t Reachable H1 Hnp ltac:(discriminate)) as H2.
+    set (sb := set_c sa (wt_set_tower_status (f_c sa) t Reachable)) in *.
+    assert (H3 : CInv (set_c sb (with_retriers (f_c sb) (aremove (c_retriers (f_c sb)) t)))).
+    { apply CInv_retriers_change; [exact H2|]. intros k Hk. rewrite aget_aremove.
+      change (rstat sb k) with (rstat sa k) in Hk. unfold sa in Hk. rewrite rstat_put in Hk. destruct (N.eqb k t) eqn:Ek; [discriminate|].
+      destruct H2 as [_ [_ HV2]].
+      assert (Hpb : poisoned sb = false) by (unfold sb, poisoned; cbn [f_c set_c]; rewrite poisoned_set_status; exact Hnp).
+      destruct (HV2 Hpb) as [_ [_ [_ [_ V5]]]]. apply V5.
+      change (rstat sb k) with (rstat sa k). unfold sa. rewrite rstat_put, Ek. exact Hk. }
+    exact H3.
+  - destruct (negb (is_permanent e) && more); [exact HC|]. specialize (Hnp I).
+    set (s1 := if is_permanent e then retrier_set_status s t RFailed else s).
+    assert (H1 : CInv s1 /\ poisoned s1 = false /\ f_c s1 = f_c s /\
+                 exists r1, aget (f_mgr s1) t = Some r1 /\ r_pending r1 = r_pending r0 /\ (is_permanent e = false -> s1 = s)).
+    { unfold s1. destruct (is_permanent e).
+      - rewrite (retrier_set_status_eq s t RFailed r0 Er). split; [apply (CInv_retrier_update s t RFailed false r0 HC Er); discriminate|].
+        split; [exact Hnp|]. split; [reflexivity|]. eexists. split; [unfold put_retrier, set_mgr; cbn [f_mgr]; apply aget_aset_same|]. split; [reflexivity|discriminate].
+      - split; [exact HC|]. split; [exact Hnp|]. split; [reflexivity|]. exists r0. auto. }
+    destruct H1 as [HC1 [Hp1 [Ec1 [r1 [Er1 [Epend Hsame]]]]]].
+    destruct e as [[|]| |l|]; cbn [fst].
+    + apply CInv_end_task. apply CInv_set_status; [exact HC1|exact Hp1|discriminate].
+    + (* gave up: idle *)
+      apply CInv_end_task. specialize (Hsame eq_refl). subst s1.
+      match goal with |- CInv (retrier_clear (retrier_set_status ?x t RIdle) t) =>
+        rewrite (retrier_set_status_eq x t RIdle r0 Er);
+        rewrite (retrier_clear_eq (put_retrier x t {| r_status := RIdle; r_pending := r_pending r0 |}) t {| r_status := RIdle; r_pending := r_pending r0 |})
+          by (unfold put_retrier, set_mgr; cbn [f_mgr]; apply aget_aset_same) end.
+      cbn [r_status].
+      pose proof (CInv_retrier_update s t RIdle false r0 HC Er ltac:(discriminate)) as Ha. cbn [r_pending] in Ha.
+      set (sa := put_retrier s t {| r_status := RIdle; r_pending := r_pending r0 |}) in *.
+      assert (Era : aget (f_mgr sa) t = Some {| r_status := RIdle; r_pending := r_pending r0 |}) by (unfold sa, put_retrier, set_mgr; cbn [f_mgr]; apply aget_aset_same).
+      pose proof (CInv_retrier_update sa t RIdle true _ Ha Era ltac:(discriminate)) as Hb. cbn [r_pending] in Hb.
+      set (sb := put_retrier sa t {| r_status := RIdle; r_pending := [] |}) in *.
+      assert (Hc : CInv (set_c sb (with_retriers (f_c sb) (aset (c_retriers (f_c sb)) t RIdle)))).
+      { apply CInv_retriers_change; [exact Hb|]. intros k Hk. rewrite aget_aset. unfold sb in Hk. rewrite rstat_put in Hk.
+        destruct (N.eqb k t) eqn:Ek; [discriminate|]. destruct Ha as [_ [_ HVa]]. destruct (HVa Hnp) as [_ [_ [_ [_ V5]]]]. apply V5. exact Hk. }
+      set (sc := set_c sb (with_retriers (f_c sb) (aset (c_retriers (f_c sb)) t RIdle))) in *.
+      exact (CInv_set_status sc t Unreachable Hc Hnp ltac:(discriminate)).
+    + apply CInv_end_task. specialize (Hsame eq_refl). subst s1.
+      match goal with |- CInv (retrier_clear (retrier_set_status ?x t RIdle) t) =>
+        rewrite (retrier_set_status_eq x t RIdle r0 Er);
+        rewrite (retrier_clear_eq (put_retrier x t {| r_status := RIdle; r_pending := r_pending r0 |}) t {| r_status := RIdle; r_pending := r_pending r0 |})
+          by (unfold put_retrier, set_mgr; cbn [f_mgr]; apply aget_aset_same) end.
+      cbn [r_status].
+      pose proof (CInv_retrier_update s t RIdle false r0 HC Er ltac:(discriminate)) as Ha. cbn [r_pending] in Ha.
+      set (sa := put_retrier s t {| r_status := RIdle; r_pending := r_pending r0 |}) in *.
+      assert (Era : aget (f_mgr sa) t = Some {| r_status := RIdle; r_pending := r_pending r0 |}) by (unfold sa, put_retrier, set_mgr; cbn [f_mgr]; apply aget_aset_same).
+      pose proof (CInv_retrier_update sa t RIdle true _ Ha Era ltac:(discriminate)) as Hb. cbn [r_pending] in Hb.
+      set (sb := put_retrier sa t {| r_status := RIdle; r_pending := [] |}) in *.
+      assert (Hc : CInv (set_c sb (with_retriers (f_c sb) (aset (c_retriers (f_c sb)) t RIdle)))).
+      { apply CInv_retriers_change; [exact Hb|]. intros k Hk. rewrite aget_aset. unfold sb in Hk. rewrite rstat_put in Hk.
+        destruct (N.eqb k t) eqn:Ek; [discriminate|]. destruct Ha as [_ [_ HVa]]. destruct (HVa Hnp) as [_ [_ [_ [_ V5]]]]. apply V5. exact Hk. }
+      set (sc := set_c sb (with_retriers (f_c sb) (aset (c_retriers (f_c sb)) t RIdle))) in *.
+      exact (CInv_set_status sc t Unreachable Hc Hnp ltac:(discriminate)).
+    + (* misbehaving *)
+      destruct (wt_flag_misbehaving_tower (f_c s1) t l START_BLOCK USER_SIG SIG_OTHER (other_id t)) as [c2 r2] eqn:E2.
+      assert (H2 : CInv (set_c s1 c2)).
+      { apply CInv_FInv_notasks. apply CInv_FInv_notasks in HC1. exact (FInv_flag (notasks s1) t l c2 r2 HC1 Hp1 E2). }
+      destruct (lift_site r2); cbn [fst]; apply CInv_end_task; exact H2.
+    + apply CInv_end_task. exact HC1.
+  - cbn [fst]. apply CInv_end_task. exact HC.
+  - exact HC.
+Qed.
+
+Lemma FInv_task_step s t r more :
+  FInv s -> rstat s t = Some RRunning -> (match r with RunAbort _ => False | _ => True end -> poisoned s = false) ->
+  FInv (fst (task_step s t r more)).
+Proof.
+  intros HF Hrun Hnp. apply FInv_split in HF. destruct HF as [HC HT]. apply FInv_split. split.
+  - apply CInv_task_step; assumption.
+  - apply TaskInv_task_step, HT.
+Qed.
+
+Lemma FInv_retrier_run t : forall atts s, FInv s -> FInv (fst (f_retrier_run s t atts)).
+Proof.
+  induction atts as [|a atts IH]; intros s HF; cbn [f_retrier_run]; [exact HF|].
+  destruct (memN t (f_tasks s)) eqn:Em; cbn [negb]; [|exact HF].
+  assert (Hrun : rstat s t = Some RRunning) by (apply HF, memN_In, Em).
+  destruct (run_attempt s t a) as [s1 r] eqn:E1.
+  destruct (FInv_run_attempt s t a s1 r HF Hrun E1) as [HF1 [Hnp _]].
+  assert (Hrun1 : rstat s1 t = Some RRunning).
+  { pose proof (run_attempt_same s t a) as [_ Hs]. rewrite E1 in Hs. cbn [fst] in Hs. rewrite Hs. exact Hrun. }
+  pose proof (FInv_task_step s1 t r (at_more a) HF1 Hrun1 Hnp) as HF2.
+  destruct (task_step s1 t r (at_more a)) as [s2 o]. cbn [fst] in HF2.
+  destruct o; try exact HF2. destruct atts; [exact HF2|]. apply IH, HF2.
+Qed.
+
+(* ---- every operation ---- *)
+Lemma FInv_fstep s o : FInv s -> fresh_ok s o = true -> FInv (fst (fstep s o)).
+Proof.
+  intros HF Hg. destruct o; cbn [fstep].
+  - apply FInv_register; assumption.
+  - apply FInv_revocation, HF.
+  - apply FInv_manager_tick, HF.
+  - pose proof (FInv_retrier_run t atts s HF) as H. destruct (f_retrier_run s t atts). exact H.
+  - apply FInv_manual_retry, HF.
+  - apply FInv_abandon, HF.
+  - apply FInv_restart, HF.
+Qed.
+
+Lemma FInv_init : FInv f_init.
+Proof.
+  split; [apply Inv_wt_new|]. split; [|split; [|apply TaskInv_init]].
+  - split; [apply Inv_wt_new|]. split.
+    + intros t l _. repeat split; intros [[r [[] _]] _].
+    + intros t l [].
+  - intros _. split; [intros t Ht; discriminate Ht|]. split; [intros t _ l []|]. split; [intros t Ht; discriminate Ht|].
+    split; [intros t r Ht; discriminate Ht|intros t Ht; discriminate Ht].
+Qed.
+
+Lemma FInv_frun ops : forall s, FInv s -> ops_fresh s ops = true -> FInv (frun s ops).
+Proof.
+  induction ops as [|o ops IH]; intros s HF Hg; cbn in *; [exact HF|].
+  apply andb_true_iff in Hg. destruct Hg as [G1 G2]. apply IH; [apply FInv_fstep; assumption|exact G2].
+Qed.
